@@ -23,6 +23,7 @@ package main
 // Trace line:   {"ev","args"(resolved, real amounts),"ok","err","code","post","scn"}; "reset" carries cfg and the script.
 
 import (
+	"encoding/base64"
 	"encoding/json"
 	"flag"
 	"fmt"
@@ -601,7 +602,17 @@ var vlForwarder = []byte{
 // steps whose fee the vesting account itself pays
 var vlSelfPaid = map[string]bool{"send": true, "send_erc20": true, "multisend": true, "dao_fund": true, "gov_deposit": true,
 	"convert_coin": true, "eth_value": true, "liquidate": true, "delegate": true, "pc_delegate": true, "pc_delegate_contract": true,
-	"create_validator": true, "undelegate": true, "withdraw": true, "grant_authz": true, "grant_fee": true, "grant_pc": true}
+	"create_validator": true, "pc_create_validator": true, "pc_create_validator_contract": true,
+	"cancel_unbond": true, "pc_cancel_unbond": true, "undelegate": true, "withdraw": true, "grant_authz": true, "grant_fee": true, "grant_pc": true}
+
+// vlPcForwarder: a contract that forwards its calldata to the staking precompile and reverts if the call fails
+var vlPcForwarder = []byte{
+	0x36, 0x60, 0x00, 0x60, 0x00, 0x37, // CALLDATACOPY(0, 0, CALLDATASIZE)
+	0x60, 0x00, 0x60, 0x00, 0x36, 0x60, 0x00, 0x60, 0x00, 0x61, 0x08, 0x00, 0x5a, 0xf1, // CALL(GAS, 0x0800, 0, 0, CALLDATASIZE, 0, 0)
+	0x15, 0x60, 0x19, 0x57, // ISZERO PUSH1 rev(=25) JUMPI
+	0x00,                               // STOP
+	0x5b, 0x60, 0x00, 0x60, 0x00, 0xfd, // rev: JUMPDEST PUSH1 0 PUSH1 0 REVERT
+}
 
 // step executes one scripted step.
 func (x *vlExec) step(st vlStep) {
@@ -816,13 +827,14 @@ func (x *vlExec) step(st vlStep) {
 		case "exec_convert_coin":
 			execBy(4_000_000, erc20types.NewMsgConvertCoin(c[0], ethAddr(x.a2), x.vx.Addr))
 		}
-	case "delegate", "exec_delegate", "pc_delegate", "pc_delegate_contract", "create_validator":
+	case "delegate", "exec_delegate", "pc_delegate", "pc_delegate_contract", "create_validator",
+		"exec_create_validator", "pc_create_validator", "pc_create_validator_contract":
 		var gas uint64 = 500000
 		fee := x.cosmosFee(gas)
-		if st.Ev == "exec_delegate" {
+		if st.Ev == "exec_delegate" || st.Ev == "exec_create_validator" {
 			fee = new(big.Int)
 		}
-		if st.Ev == "pc_delegate" || st.Ev == "pc_delegate_contract" {
+		if strings.HasPrefix(st.Ev, "pc_") {
 			gas = 3_500_000
 			fee = ethFee(gas)
 		}
@@ -841,16 +853,43 @@ func (x *vlExec) step(st vlStep) {
 			bz, err = x.cosmosTx(x.vx, gas, fee, nil, stakingtypes.NewMsgDelegate(x.vx.Addr, x.val(x.curV), c))
 		case "exec_delegate":
 			execBy(1_200_000, stakingtypes.NewMsgDelegate(x.vx.Addr, x.val(x.curV), c))
-		case "create_validator":
-			args["fee"] = vlFeeMap(fee)
+		case "create_validator", "exec_create_validator":
 			pk := ed25519.GenPrivKeyFromSecret(detBytes(x.cfg.Seed, "vxcons")).PubKey()
 			var m *stakingtypes.MsgCreateValidator
 			m, err = stakingtypes.NewMsgCreateValidator(sdk.ValAddress(x.vx.Addr), pk, c, stakingtypes.Description{Moniker: "vx1"},
 				stakingtypes.NewCommissionRates(sdkmath.LegacyNewDecWithPrec(5, 2), sdkmath.LegacyNewDecWithPrec(20, 2), sdkmath.LegacyNewDecWithPrec(1, 2)),
 				sdkmath.OneInt())
 			if err == nil {
-				bz, err = x.cosmosTx(x.vx, gas, fee, nil, m)
+				if st.Ev == "create_validator" {
+					args["fee"] = vlFeeMap(fee)
+					bz, err = x.cosmosTx(x.vx, gas, fee, nil, m)
+				} else {
+					execBy(1_500_000, m)
+				}
 			}
+		case "pc_create_validator", "pc_create_validator_contract":
+			// the staking precompile's createValidator: called by the account itself, or by a contract
+			// the account calls (the precompile only insists that the delegator is the tx origin)
+			eth = true
+			args["fee"] = vlFeeMap(fee)
+			pk := ed25519.GenPrivKeyFromSecret(detBytes(x.cfg.Seed, "vxcons")).PubKey()
+			d18 := func(n int64) *big.Int { return new(big.Int).Mul(big.NewInt(n), new(big.Int).Exp(big.NewInt(10), big.NewInt(16), nil)) }
+			var data []byte
+			data, err = stakingABI.Pack("createValidator",
+				stakingprecompile.Description{Moniker: "vx1"},
+				stakingprecompile.Commission{Rate: d18(5), MaxRate: d18(20), MaxChangeRate: d18(1)},
+				big.NewInt(1), ethAddr(x.vx), sdk.ValAddress(x.vx.Addr).String(), base64.StdEncoding.EncodeToString(pk.Bytes()), amt)
+			if err != nil {
+				break
+			}
+			to := stakingPC
+			if st.Ev == "pc_create_validator_contract" {
+				to = ethAddr(DetKey(x.cfg.Seed, "C2"))
+				if err = x.evw.InstallCode(x.n.Ctx(), to, vlPcForwarder, nil); err != nil {
+					break
+				}
+			}
+			bz, err = x.ethTx(x.vx, &to, new(big.Int), gas, gp, data)
 		case "pc_delegate":
 			eth = true
 			args["fee"] = vlFeeMap(fee)
@@ -884,6 +923,44 @@ func (x *vlExec) step(st vlStep) {
 			}
 			return []sdk.Msg{stakingtypes.NewMsgUndelegate(x.vx.Addr, v, sdk.NewCoin(vlBond, vlInt(amt)))}
 		})
+	case "cancel_unbond", "exec_cancel_unbond", "pc_cancel_unbond":
+		// re-bond coins of the account's first unbonding entry
+		var val sdk.ValAddress
+		var height, at int64
+		bal := new(big.Int)
+		for _, u := range x.n.App.StakingKeeper.GetAllUnbondingDelegations(x.n.Ctx(), x.vx.Addr) {
+			for _, e := range u.Entries {
+				t := e.CompletionTime.Unix() - x.base
+				if val == nil || t < at {
+					val, _ = sdk.ValAddressFromBech32(u.ValidatorAddress)
+					height, at, bal = e.CreationHeight, t, e.Balance.BigInt()
+				}
+			}
+		}
+		amt := x.resolve(how, bal, bal, a["deleg"])
+		args["deleg"], args["at"] = amt.String(), at
+		if val == nil || amt.Sign() <= 0 {
+			err = fmt.Errorf("not constructible")
+			break
+		}
+		c := sdk.NewCoin(vlBond, vlInt(amt))
+		switch st.Ev {
+		case "cancel_unbond":
+			selfCosmos(600000, func(fee *big.Int) []sdk.Msg {
+				return []sdk.Msg{stakingtypes.NewMsgCancelUnbondingDelegation(x.vx.Addr, val, height, c)}
+			})
+		case "exec_cancel_unbond":
+			execBy(1_500_000, stakingtypes.NewMsgCancelUnbondingDelegation(x.vx.Addr, val, height, c))
+		case "pc_cancel_unbond":
+			eth = true
+			fee := ethFee(3_500_000)
+			args["fee"] = vlFeeMap(fee)
+			var data []byte
+			data, err = stakingABI.Pack("cancelUnbondingDelegation", ethAddr(x.vx), val.String(), amt, big.NewInt(height))
+			if err == nil {
+				bz, err = x.ethTx(x.vx, &stakingPC, new(big.Int), 3_500_000, gp, data)
+			}
+		}
 	case "withdraw":
 		v, _ := x.bigDelegation()
 		if v == nil {
@@ -918,7 +995,7 @@ func (x *vlExec) step(st vlStep) {
 		args["amt"] = vlAmtMap(vlBond, amt)
 		bz, err = x.cosmosTx(x.a1, 300000, x.cosmosFee(300000), nil, banktypes.NewMsgSend(x.a1.Addr, x.vx.Addr, sdk.NewCoins(sdk.NewCoin(vlBond, vlInt(amt)))))
 	case "grant_authz":
-		selfCosmos(600000, func(fee *big.Int) []sdk.Msg { return x.authzGrants() })
+		selfCosmos(900000, func(fee *big.Int) []sdk.Msg { return x.authzGrants() })
 	case "grant_fee":
 		selfCosmos(300000, func(fee *big.Int) []sdk.Msg {
 			m, e := feegrant.NewMsgGrantAllowance(&feegrant.BasicAllowance{}, x.vx.Addr, x.a3.Addr)
@@ -953,7 +1030,7 @@ func (x *vlExec) step(st vlStep) {
 		d := new(big.Int).Sub(vlBig(post["va"].(M)["vx1"].(M)["bonded"]), vlBig(pre["va"].(M)["vx1"].(M)["bonded"]))
 		args["deleg"] = vlPos(d).String()
 	}
-	if st.Ev == "create_validator" && ok {
+	if strings.Contains(st.Ev, "create_validator") && ok {
 		x.madeV = true
 	}
 	if ok {
@@ -1014,7 +1091,8 @@ func (x *vlExec) proposal() uint64 {
 func (x *vlExec) authzGrants() []sdk.Msg {
 	exp := x.n.Time.Add(100000 * time.Hour)
 	var msgs []sdk.Msg
-	for _, m := range []sdk.Msg{&banktypes.MsgSend{}, &ucdaotypes.MsgFund{}, &govv1beta1.MsgDeposit{}, &erc20types.MsgConvertCoin{}, &stakingtypes.MsgDelegate{}} {
+	for _, m := range []sdk.Msg{&banktypes.MsgSend{}, &ucdaotypes.MsgFund{}, &govv1beta1.MsgDeposit{}, &erc20types.MsgConvertCoin{}, &stakingtypes.MsgDelegate{},
+		&stakingtypes.MsgCreateValidator{}, &stakingtypes.MsgCancelUnbondingDelegation{}} {
 		g, err := authz.NewMsgGrant(x.vx.Addr, x.a3.Addr, authz.NewGenericAuthorization(sdk.MsgTypeURL(m)), &exp)
 		if err != nil {
 			return nil
@@ -1102,7 +1180,7 @@ func vlRunScenario(tw *TraceWriter, scn int, src string, sc vlScript, stats map[
 	if cfg.Init.Grants {
 		// the grants are given while the account can still pay for them: in a fee-less block if the
 		// scenario runs with fees and the account has nothing spendable yet
-		fee := gasFee(700000)
+		fee := gasFee(1000000)
 		if x.spendable(vlBond).Cmp(fee) < 0 {
 			fee = new(big.Int)
 		}
@@ -1116,9 +1194,9 @@ func vlRunScenario(tw *TraceWriter, scn int, src string, sc vlScript, stats map[
 				al2, _ := feegrant.NewMsgGrantAllowance(&feegrant.BasicAllowance{}, x.a1.Addr, x.vx.Addr)
 				b2, e2 := x.cosmosTx(x.a1, 300000, gasFee(300000), nil, al2)
 				x.prep("feegrant-a1", b2, e2, false)
-				bz, err = x.cosmosTx(x.vx, 700000, gasFee(700000), x.a1.Addr, gm...)
+				bz, err = x.cosmosTx(x.vx, 1000000, gasFee(1000000), x.a1.Addr, gm...)
 			} else {
-				bz, err = x.cosmosTx(x.vx, 700000, fee, nil, gm...)
+				bz, err = x.cosmosTx(x.vx, 1000000, fee, nil, gm...)
 			}
 			setupOK = x.prep("grants", bz, err, false) && setupOK
 		}
@@ -1223,7 +1301,8 @@ func vlRandomScript(r *rand.Rand, seed int64) vlScript {
 	if sc.Cfg.Init.Code {
 		debit = append(debit, "eth_internal", "eth_internal", "eth_internal", "eth_internal")
 	}
-	deleg := []string{"delegate", "exec_delegate", "pc_delegate", "pc_delegate_contract", "create_validator"}
+	deleg := []string{"delegate", "exec_delegate", "pc_delegate", "pc_delegate_contract", "create_validator",
+		"exec_create_validator", "pc_create_validator", "pc_create_validator_contract"}
 	nsteps := 10 + r.Intn(10)
 	for i := 0; i < nsteps; i++ {
 		var st vlStep
@@ -1241,7 +1320,11 @@ func vlRandomScript(r *rand.Rand, seed int64) vlScript {
 		case k < 12:
 			st = vlStep{Ev: deleg[r.Intn(len(deleg))], Args: M{"how": pick("max", "max", "max", "max+1", "all", "half", "one", "huge", "unit")}}
 		case k < 13:
-			st = vlStep{Ev: "undelegate", Args: M{"how": pick("all", "all", "half", "one")}}
+			if r.Intn(3) == 0 {
+				st = vlStep{Ev: pick("cancel_unbond", "exec_cancel_unbond", "pc_cancel_unbond"), Args: M{"how": pick("all", "half", "sp+1", "one")}}
+			} else {
+				st = vlStep{Ev: "undelegate", Args: M{"how": pick("all", "all", "half", "one")}}
+			}
 		case k < 17:
 			switch r.Intn(5) {
 			case 0:
